@@ -154,8 +154,12 @@ MODELLED = {
     "_builtin_dbreference": "body_tt \"dbreference\"", "_builtin_primitive": "body_tt \"primitive\"",
     "_builtin_is": "body_is", "_builtin_gt": "body_cmp", "_builtin_lt": "body_cmp", "_builtin_le": "body_cmp",
     "_builtin_ge": "body_cmp", "_builtin_val_neq": "body_cmp", "_builtin_val_eq": "body_cmp",
-    "_builtin_sort": "body_sort",
+    "_builtin_sort": "body_sort", "_builtin_numbervars": "body_numbervars",
 }
+
+
+MODELLED_SIGS = {"between/3", "succ/2", "plus/3", "length/2", "functor/3", "arg/3", "=../2", "compare/3", "atom_number/2", "sort/2",
+                 "is/2", "</2", ">/2", "=</2", ">=/2", "=:=/2", "=\\=/2", "numbervars/3", "nocache/2"}
 
 
 def _patch_check_mode():
@@ -403,7 +407,18 @@ def g_letter(rng, st, c):
 PREAMBLE = "0.3::pf(1). 0.6::pf(2). base(a). base(b). r(X) :- base(X).\n"
 
 
+BIG_OK = {"is", "<", ">", "=<", ">=", "=:=", "=\\=", "plus", "succ", "atom_number", "=", "==", "\\==", "\\=", "compare", "sort",
+          "integer", "number", "atomic", "=..", "arg", "@<", "@>", "@=<", "@>=", "ground", "var", "nonvar", "float"}
+
+
 def g_call(rng, name, arity, modes):
+    args = g_call0(rng, name, arity, modes)
+    if name not in BIG_OK:       # between/length/functor/... would enumerate or allocate that many elements
+        args = [a.replace("12345678901234567890123", "100").replace("12345678901234567890", "100") for a in args]
+    return args
+
+
+def g_call0(rng, name, arity, modes):
     """One call `name(args)` as text.  modes: list of mode strings of the sites reachable from the builtin."""
     st = {"nv": 0, "vars": []}
     usable = [m for m in modes if len(m) == arity]
@@ -419,7 +434,7 @@ def quote_functor(name):
     import re
     if re.match(r"^[a-z][A-Za-z0-9_]*$", name):
         return name
-    return "'" + name.replace("\\", "\\\\").replace("'", "\\'") + "'"
+    return "'" + name.replace("'", "\\'") + "'"      # no backslash escapes inside ProbLog quoted atoms
 
 
 def call_text(name, args):
@@ -445,10 +460,31 @@ def program_for(call, variant=0):
 
 
 # ------------------------------------------------------------------------------------------------ classes
+FAMILY = {"_builtin_gt": "arith_compare", "_builtin_lt": "arith_compare", "_builtin_le": "arith_compare", "_builtin_ge": "arith_compare",
+          "_builtin_val_eq": "arith_compare", "_builtin_val_neq": "arith_compare",
+          "_builtin_try_call": "try_call", "_builtin_try_calln": "try_call",
+          "_builtin_set_state": "state_builtins", "_builtin_reset_state": "state_builtins",
+          "_builtin_check_state": "state_builtins", "_builtin_condition": "state_builtins",
+          "_builtin_call_in_scope": "call_in_scope", "_builtin_calln_in_scope": "call_in_scope",
+          "_builtin_subquery": "subquery", "_builtin_subquery_in_scope": "subquery"}
+
+
 def violation_class(info, name=None):
+    """Narrow class = exception type + innermost problog frame (+ the builtin family it was reached through)."""
     exc, inner, near, msg = info
-    site = near or inner or "?"
-    return "internal-%s-at-%s" % (exc, site)
+    inner = inner or "?"
+    if inner.startswith("logic.<lambda>"):
+        inner = "logic.compute_function"
+    if exc == "AssertionError" and inner == "eval_nodes.__setitem__":
+        return "false-result-to-cycle-parent-assertion"
+    mod, _, fn = inner.rpartition(".")
+    if mod == "engine_builtin":
+        inner = FAMILY.get(fn, fn)
+        near = None
+    k = "internal-%s-at-%s" % (exc, inner)
+    if near:
+        k += "-via-" + FAMILY.get(near, near)
+    return k
 
 
 # ------------------------------------------------------------------------------------------------ tie (a): registrations
@@ -480,32 +516,39 @@ def compare_registrations(ctx, table):
 
 
 # ------------------------------------------------------------------------------------------------ streams
-def shrink_args(name, args, variant, klass, budget=40):
-    """Replace arguments by simpler shapes while the same class of internal exception persists."""
-    simple = ["a", "1", "X", "[]", "f(a)", "0.5", '"s"']
-    args = list(args)
-    tries = 0
-    changed = True
-    while changed and tries < budget:
-        changed = False
-        for i in range(len(args)):
-            for s in simple:
-                if args[i] == s or len(s) >= len(args[i]):
-                    continue
-                cand = args[:i] + [s] + args[i + 1:]
-                tries += 1
-                r = run_program({"src": program_for(call_text(name, cand), variant), "record": False, "timeout": 10})
-                if r["info"] is not None and violation_class(r["info"]) == klass:
-                    args = cand
-                    changed = True
-                    break
-            if tries >= budget:
-                break
-    if variant != 0:
-        r = run_program({"src": program_for(call_text(name, args), 0), "record": False, "timeout": 10})
-        if r["info"] is not None and violation_class(r["info"]) == klass:
-            variant = 0
-    return args, variant
+SIMPLE_ARGS = ["a", "1", "X", "[]", "f(a)", "0.5", '"s"', "_"]
+
+
+def shrink_calls(found):
+    """found: {klass: (name, args, variant)}.  Two parallel rounds of one-argument simplifications (and the plain
+    program context), keeping a candidate only when the same class of internal exception persists."""
+    found = dict(found)
+    for _round in range(3):
+        items, metas = [], []
+        for klass, (name, args, variant) in found.items():
+            cands = []
+            if variant != 0:
+                cands.append((args, 0))
+            for i in range(len(args)):
+                for sarg in SIMPLE_ARGS:
+                    if args[i] != sarg and len(sarg) < len(args[i]):
+                        cands.append((args[:i] + [sarg] + args[i + 1:], variant))
+            for (a, v) in cands:
+                items.append({"src": program_for(call_text(name, a), v), "record": False, "timeout": 5})
+                metas.append((klass, name, a, v))
+        if not items:
+            break
+        results = pl.pmap(run_program, items, chunksize=4)
+        improved = False
+        for (klass, name, a, v), r in zip(metas, results):
+            if r["info"] is not None and violation_class(r["info"]) == klass:
+                cur = found[klass]
+                if (len(call_text(name, a)), v) < (len(call_text(cur[0], cur[1])), cur[2]):
+                    found[klass] = (name, a, v)
+                    improved = True
+        if not improved:
+            break
+    return found
 
 
 def malformed_stream(ctx, table, live):
@@ -517,15 +560,18 @@ def malformed_stream(ctx, table, live):
         ar = int(ar)
         modes = [m for i in table["builtin_sites"].get(sig, []) for m in table["sites"][i]["modes"]]
         n = per if ar > 0 else 1
+        if sig in MODELLED_SIGS:
+            n = per * 3
         if name in ("debugprint", "write", "writenl", "writeln", "error", "call", "call_nc", "try_call", "call_in_scope") and ar > 3:
             n = max(2, per // 4)
         for k in range(n):
             args = g_call(ctx.rng, name, ar, modes)
             variant = 0 if ctx.rng.random() < 0.72 else ctx.rng.choice([1, 2, 3, 4, 5, 6])
-            items.append({"src": program_for(call_text(name, args), variant), "record": True, "timeout": 10})
+            items.append({"src": program_for(call_text(name, args), variant), "record": True, "timeout": 6})
             metas.append((sig, name, args, variant))
     ctx.log("malformed stream: %d programs over %d builtins" % (len(items), len(sigs)))
     results = pl.pmap(run_program, items, chunksize=8)
+    ctx.log("malformed stream evaluated")
     seen_classes = {}
     for (sig, name, args, variant), r in zip(metas, results):
         out = r["out"]
@@ -536,11 +582,14 @@ def malformed_stream(ctx, table, live):
         if r["info"] is not None:
             klass = violation_class(r["info"])
             seen_classes.setdefault(klass, []).append((sig, name, args, variant, r["info"]))
+    for klass in seen_classes:
+        seen_classes[klass].sort(key=lambda x: (len(call_text(x[1], x[2])), x[0]))
+    ctx.log("shrinking %d classes" % len(seen_classes))
+    small = shrink_calls({k: (v[0][1], v[0][2], v[0][3]) for k, v in seen_classes.items()})
     for klass in sorted(seen_classes):
         lst = seen_classes[klass]
-        lst.sort(key=lambda x: (len(call_text(x[1], x[2])), x[0]))
-        sig, name, args, variant, info = lst[0]
-        sargs, svariant = shrink_args(name, args, variant, klass)
+        info = lst[0][4]
+        name, sargs, svariant = small[klass]
         src = program_for(call_text(name, sargs), svariant)
         ctx.violation("%s raised instead of a ProbLogError on `%s` (%d programs of this class; builtins: %s): %s"
                       % (info[0], call_text(name, sargs), len(lst), ",".join(sorted(set(x[0] for x in lst))[:8]), info[3]),
@@ -597,10 +646,10 @@ def mutation_stream(ctx):
     nmut_file = ctx.n(3, 60)
     items, metas = [], []
     for k, p in enumerate(GEN_PROGRAMS):
-        items.append({"src": p, "record": False, "timeout": 10})
+        items.append({"src": p, "record": False, "timeout": 4})
         metas.append(("gen%d" % k, "orig"))
         for j in range(nmut_gen):
-            items.append({"src": mutate(ctx.rng, p), "record": False, "timeout": 10})
+            items.append({"src": mutate(ctx.rng, p), "record": False, "timeout": 4})
             metas.append(("gen%d" % k, "mut"))
     files = sorted(glob.glob(os.path.join(vf.REPO, "test", "*.pl")))
     for fn in files:
@@ -612,7 +661,7 @@ def mutation_stream(ctx):
         if len(text) > 6000:
             continue
         for j in range(nmut_file):
-            items.append({"src": mutate(ctx.rng, text), "record": False, "timeout": 10})
+            items.append({"src": mutate(ctx.rng, text), "record": False, "timeout": 4})
             metas.append((os.path.basename(fn), "mut"))
     ctx.log("mutation stream: %d programs (%d test files)" % (len(items), len(files)))
     cwd = os.getcwd()
@@ -642,7 +691,7 @@ def mutation_stream(ctx):
 def shrink_text(src, klass, budget=120):
     """ddmin over lines, then over statements split at '.', keeping the same class."""
     def bad(s):
-        r = run_program({"src": s, "record": False, "timeout": 10})
+        r = run_program({"src": s, "record": False, "timeout": 4})
         return r["info"] is not None and violation_class(r["info"]) == klass
     tries = [0]
 
@@ -709,16 +758,7 @@ def replay_modes(ctx, table, results):
     ctx.cov["records_skipped_unencodable"] = nskip
     if not cases:
         ctx.broken.append("correspondence:no dynamic check_mode call was observed")
-        return
-    try:
-        bad = ctx.coq_failing(HEADER, cases, name="modes")
-    except RuntimeError as e:
-        ctx.broken.append("correspondence:check_mode model does not evaluate")
-        ctx.notes.append(str(e))
-        return
-    ctx.cov["check_mode_model_vs_impl_agree"] = len(cases) - len(bad)
-    for i in bad[:5]:
-        ctx.broken.append("correspondence:check_mode model vs implementation on %r" % (metas[i],))
+    return cases, metas
 
 
 def coq_outcome(out):
@@ -760,17 +800,29 @@ def replay_calls(ctx, results):
             ctx.count("modelled_call:" + pyname)
             ctx.count("modelled_outcome:" + (out[1] if out[0] == "E" else "returns"))
     ctx.cov["modelled_builtin_calls_replayed"] = len(cases)
+    return cases, metas
+
+
+def replay_all(ctx, table, results):
+    mc, mm = replay_modes(ctx, table, results)
+    bc, bm = replay_calls(ctx, results)
+    cases = mc + bc
     if not cases:
         return
     try:
-        bad = ctx.coq_failing(HEADER, cases, name="calls")
+        bad = ctx.coq_failing(HEADER, cases, name="replay", shard=500)
     except RuntimeError as e:
-        ctx.broken.append("correspondence:builtin body models do not evaluate")
+        ctx.broken.append("correspondence:Coq models do not evaluate on the recorded calls")
         ctx.notes.append(str(e))
         return
-    ctx.cov["modelled_builtin_model_vs_impl_agree"] = len(cases) - len(bad)
-    for i in bad[:6]:
-        ctx.broken.append("correspondence:builtin model vs implementation on %r" % (metas[i],))
+    bad_m = [i for i in bad if i < len(mc)]
+    bad_b = [i - len(mc) for i in bad if i >= len(mc)]
+    ctx.cov["check_mode_model_vs_impl_agree"] = len(mc) - len(bad_m)
+    ctx.cov["modelled_builtin_model_vs_impl_agree"] = len(bc) - len(bad_b)
+    for i in bad_m[:5]:
+        ctx.broken.append("correspondence:check_mode model vs implementation on %r" % (mm[i],))
+    for i in bad_b[:6]:
+        ctx.broken.append("correspondence:builtin model vs implementation on %r" % (bm[i],))
 
 
 # ------------------------------------------------------------------------------------------------ main
@@ -801,9 +853,11 @@ def run(ctx):
     ctx.prove("C27/Props.v")
     live = compare_registrations(ctx, table)
     results, metas = malformed_stream(ctx, table, live)
-    replay_modes(ctx, table, results)
-    replay_calls(ctx, results)
+    ctx.log("replaying recorded check_mode / modelled builtin calls through the Coq models")
+    replay_all(ctx, table, results)
     mutation_stream(ctx)
+    if ctx.tier == "thorough":
+        ctx.coqchk("PL.C27.Props")
     # Findings.v is outside the cone of Props.v: if it stops compiling the defect is gone (recorded, never a violation)
     if os.path.exists(os.path.join(vf.THEORIES, "C27", "Findings.v")):
         with vf.BuildLock():
